@@ -12,6 +12,15 @@ spec/Termdet/UserTriggerTrace.tla  property-level validation of what the real mo
    msg_dispatch, send_am recorded.  Event-level traces validated by UserTriggerTrace.
 3. Sweep on the real code: all N <= 32 (thorough: 128), all roots, FIFO / LIFO / random delivery, plus large N
    (255..4096, sampled roots); each (N, root, order) is one `run` line (edge list in delivery order) validated by TLC.
+4. Inside one process (spec/Termdet/UserTriggerImpl.tla): the threads of a process call the module concurrently (the user
+   trigger / the notification from the parent, flying-message accounting addto_runtime_actions(+1/-1), task release);
+   steps = code between two yield points (atomics, send_am).  TLC: whatever the interleaving the process sends the
+   notifications of its children once and fires its callback once (= the atomic Trigger / Deliver step of UserTrigger).
+   Sensitivity self-test: with `state = TERMINATED` moved after the send loop (Order = "late") AtMostOnceI must fail.
+   Binding: every maximal path of the TLC graph is a schedule replayed on the real module (harness mode conc, cooperative
+   scheduler vsched.h, send_am is a yield point), the harness also explores every interleaving itself; results / sends /
+   callbacks are compared with the model (divergences) and every execution, completed by the sequential delivery of what
+   is in flight, is validated by UserTriggerTrace (nobody notified twice, everybody once).
 """
 import json
 import os
@@ -25,12 +34,23 @@ META = {
             "taskpool_ready) exhaustively for 1..8 processes, all triggering processes and all delivery orders; the real "
             "module is then run on N virtual ranks in one process (recorded send_am, real msg_dispatch) for the TLC "
             "behaviours and for every (N, root) of a sweep, and TLC validates each recorded edge list: every process but "
-            "the triggering one is notified exactly once, nobody twice, nobody outside the communicator.",
+            "the triggering one is notified exactly once, nobody twice, nobody outside the communicator.  A second, "
+            "implementation-shaped model (threads of one process, one step per segment between yield points, one send per "
+            "step) shows that concurrent calls of the module by several threads of the terminating process (trigger or "
+            "parent notification vs. flying-message accounting) still produce one broadcast and one callback; its schedules "
+            "are replayed on the real module under a cooperative scheduler, all interleavings of the scenarios are explored "
+            "on the real code, and TLC validates each execution.",
     "note": "Exhaustive in the model for N <= 8.  Real code: every root for N <= 32 (quick) / 128 (thorough) under three "
             "delivery orders, sampled roots for N in {255,256,257,1023,1024,4095,4096}.  The root's own trigger counts as "
             "its notification (a message reaching the root is a second one).  Asserts are compiled out (RelWithDebInfo). "
+            "In-process concurrency: 2-3 threads, <= 4 operations each, exhaustive over the interleavings at yield-point "
+            "granularity (atomics of the module + every send_am); the zero-crossing test and `state = TERMINATED` that "
+            "follow the fetch-add without a yield point are one step with it (at statement granularity TLC shows that a "
+            "runtime action accounted after the counter reached zero could re-run the broadcast in the unchanged code too: "
+            "such an action is outside the counting contract, see assumptions). "
             "Trusted: TLC, the virtual-rank harness (per-rank view of the process-wide delayed-message list).",
-    "technique": "TLA+ protocol model (TLC exhaustive) + environment replay on virtual ranks + edge-list trace validation (TLC)",
+    "technique": "TLA+ protocol model (TLC exhaustive) + environment replay on virtual ranks + edge-list trace validation (TLC) "
+                 "+ implementation-shaped thread model (TLC) with schedule replay / exhaustive interleaving of the real module",
 }
 
 LARGE = (255, 256, 257, 1023, 1024, 4095, 4096)
@@ -86,6 +106,82 @@ def rejected_once(ctx, sub, module, cfg, events, env=None):
     v, r = tracecheck.validate_file(ctx.spec(sub), module, cfg, p, env=env)
     ctx.extra["trace_tlc_runs"] = ctx.extra.get("trace_tlc_runs", 0) + 1
     return not v.accepted
+
+
+# ---- in-process concurrency (UserTriggerImpl.tla / harness mode conc) ----------------------------------------------
+# scenario: threads of virtual rank `me` in a communicator of n; root == me: a thread triggers, else the notification of
+# the parent is dispatched by a thread; pre = runtime actions accounted before the threads start.
+#   trig  taskpool_set_nb_tasks(tp, 0)              msg  parsec_termdet_user_trigger_msg_dispatch (from the parent)
+#   add:v taskpool_addto_runtime_actions(tp, v)     tsk  taskpool_addto_nb_tasks(tp, -1)
+#   chk   first op: go on only if taskpool_state() != TERMINATED (precondition of the accounting helpers)
+# "flying*": the action was accounted while the tasks still held their reference (strict counting contract);
+# "late*":   a thread that saw the taskpool not TERMINATED accounts and completes an action at any time.
+CONC = [
+    {"id": "late", "n": 3, "me": 0, "root": 0, "pre": 0, "prog": [["trig"], ["chk", "add:1", "add:-1"]]},
+    {"id": "lateshift", "n": 7, "me": 5, "root": 5, "pre": 0, "prog": [["trig"], ["chk", "add:1", "add:-1", "tsk"]]},
+    {"id": "flying", "n": 3, "me": 1, "root": 1, "pre": 1, "prog": [["trig"], ["add:-1"]]},
+    {"id": "relay", "n": 5, "me": 1, "root": 0, "pre": 0, "prog": [["msg"], ["chk", "add:1", "add:-1"]]},
+    {"id": "relayflying", "n": 6, "me": 4, "root": 3, "pre": 1, "prog": [["msg"], ["tsk", "add:-1"]]},
+    {"id": "late3", "n": 2, "me": 1, "root": 1, "pre": 0, "prog": [["trig"], ["chk", "add:1", "add:-1"], ["chk", "add:1", "add:-1"]]},
+]
+CONC_THOROUGH = [
+    {"id": "flying3", "n": 7, "me": 2, "root": 2, "pre": 2, "prog": [["tsk", "trig"], ["add:1", "add:-1", "add:-1"], ["add:-1"]]},
+    {"id": "relay3", "n": 7, "me": 2, "root": 0, "pre": 1, "prog": [["msg"], ["chk", "add:1", "add:-1"], ["add:-1", "tsk"]]},
+    {"id": "late3w", "n": 4, "me": 3, "root": 3, "pre": 0, "prog": [["trig"], ["chk", "add:1", "add:-1"], ["chk", "add:2", "add:-2"]]},
+]
+# the same, every plain access its own step (model only): holds under the strict counting contract
+CONC_STMT = [
+    {"id": "flyingS", "n": 3, "me": 1, "root": 1, "pre": 1, "prog": [["trig"], ["add:-1"]]},
+    {"id": "relayflyingS", "n": 6, "me": 4, "root": 3, "pre": 2, "prog": [["msg"], ["add:-1"], ["tsk", "add:-1"]]},
+]
+IMPL_INV = ("TypeOKI", "AtMostOnceI", "CbOnceI", "CompleteI", "CompletesI")
+
+
+def sc_tla(sc, grain):
+    def op(o):
+        return {"op": "add", "v": int(o[4:])} if o.startswith("add:") else {"op": o, "v": 0}
+    return mcgen.tla({"id": sc["id"], "n": sc["n"], "me": sc["me"], "root": sc["root"], "pre": sc["pre"], "grain": grain,
+                      "prog": [[op(o) for o in t] for t in sc["prog"]]})
+
+
+def impl_mc(d, name, scs, order):
+    """scs: list of (scenario, grain)"""
+    raw = mcgen.Raw("{" + ", ".join(sc_tla(sc, g) for sc, g in scs) + "}")
+    maxt = max(len(sc["prog"]) for sc, _ in scs)
+    return mcgen.write_mc(d, name, "UserTriggerImpl", {"Scenarios": raw, "Order": order, "MaxT": maxt, "Variant": "code"},
+                          invariants=IMPL_INV)
+
+
+def tla_seq(txt):
+    return json.loads(txt.replace("<<", "[").replace(">>", "]"))
+
+
+def conc_script(scs, schedules, explore_limit):
+    out = []
+    for sc in scs:
+        out.append("S %s %d %d %d %d" % (sc["id"], sc["n"], sc["me"], sc["root"], sc["pre"]))
+        out += ["T " + " ".join(t) for t in sc["prog"]]
+        out += ["R " + s for s in schedules.get(sc["id"], ())]
+        if explore_limit:
+            out.append("X %d" % explore_limit)
+    return "\n".join(out) + "\n"
+
+
+def conc_run(ctx, exe, script, tag):
+    """-> (executions, metas): one execution / meta per R line and per explored interleaving, in order"""
+    sf = os.path.join(ctx.scratch, "conc-%s.txt" % tag)
+    with open(sf, "w") as f:
+        f.write(script)
+    tr = os.path.join(ctx.scratch, "conc-%s.ndjson" % tag)
+    mf = os.path.join(ctx.scratch, "conc-%s.meta" % tag)
+    rc, out, err = ctx.run_cmd([exe, "conc", sf, tr, mf], timeout=900)
+    if rc == 3:
+        raise tlc.TLCError("ut_replay conc: bad script / scenario (%s)" % err[-300:])
+    exs = tracecheck.split_executions(tracecheck.read_ndjson(tr)) if os.path.exists(tr) else []
+    metas = [json.loads(l) for l in open(mf)] if os.path.exists(mf) else []
+    if rc != 0:
+        exs.append([{"e": "Crash", "rc": str(rc), "stderr": err[-300:]}])
+    return exs, metas
 
 
 def run(ctx):
@@ -145,8 +241,87 @@ def run(ctx):
         k = min(len(sexs) - 1, 40)
         ctx.sample({"run": runs[k], "line": sexs[k][0]})
 
+    # ---- 4. inside one process: the threads of the terminating process (UserTriggerImpl) --------------------------------
+    scen = CONC + ([] if ctx.quick else CONC_THOROUGH)
+    # sensitivity self-test of the model: TERMINATED published after the send loop => a second broadcast
+    mod, cfg = impl_mc(d, "impl_late", [(CONC[0], "yield")], "late")
+    r = ctx.tlc_check(d, mod, cfg, expect_ok=False, workers=1)
+    if r.violated not in ("AtMostOnceI", "CbOnceI"):
+        raise tlc.TLCError("sensitivity self-test: with `state = TERMINATED` after the send loop the thread model must violate "
+                           "AtMostOnceI / CbOnceI, got %r" % r.violated)
+    # what the model says at statement granularity for a runtime action accounted after the counter reached zero
+    # (outside the counting contract; recorded, not a verdict)
+    mod, cfg = impl_mc(d, "impl_stmt_late", [(CONC[0], "stmt")], "code")
+    r = ctx.tlc_check(d, mod, cfg, expect_ok=False, workers=1)
+    ctx.extra["stmt_granularity_uncounted_action"] = r.violated or "holds"
+    # the code's order: all scenarios at yield-point granularity + the strict ones at statement granularity
+    mod, cfg = impl_mc(d, "impl", [(sc, "yield") for sc in scen] + [(sc, "stmt") for sc in CONC_STMT], "code")
+    g = ctx.tlc_graph(d, mod, cfg, coverage=True)
+    cov = g.result.coverage or {}
+    for a in ("Start", "Lk", "Ul", "Tsk", "Fa", "Test", "Set", "Send"):
+        if a not in cov or cov[a][1] == 0:
+            raise tlc.TLCError("UserTriggerImpl: action %s never taken (vacuity guard); coverage %r" % (a, cov))
+    byid = {sc["id"]: sc for sc in scen}
+    schedules, expect, npaths = {}, {}, {}
+    path_limit = 1500 if ctx.quick else 20000
+    for i0 in g.init:
+        m = re.search(r'id \|-> "(\w+)"', g.nodes[i0])
+        if not m or m.group(1) not in byid:
+            continue                                            # statement-granularity scenarios: model only
+        sub = tlc.Graph()
+        sub.nodes, sub.edges, sub.init = g.nodes, g.edges, [i0]
+        paths, total, exhaustive = tlc.maximal_paths(sub, limit=path_limit, rng=ctx.rng)
+        npaths[m.group(1)] = (total, exhaustive)
+        schedules[m.group(1)] = []
+        for labels, end in paths:
+            sched = "".join(str(int(re.search(r"\((\d+)\)", l).group(1)) - 1) for l in labels)
+            st = tlc.parse_state_label(g.nodes[end])
+            schedules[m.group(1)].append(sched)
+            expect[(m.group(1), sched)] = {"ret": tla_seq(st["ret"]), "sent": tla_seq(st["sent"]), "cbs": int(st["cbs"])}
+    cexs, cmetas = conc_run(ctx, exe, conc_script(scen, schedules, 3000 if ctx.quick else 60000), "all")
+    cruns = [m for m in cmetas if "sched" in m]
+    explored = {m["id"]: m for m in cmetas if "explored" in m}
+    for m in cruns:
+        bad = None
+        if m["mode"] == "R":
+            want = expect.get((m["id"], m["sched"]))
+            got = {"ret": m["ret"], "sent": m["sent"], "cbs": m["cbs"]}
+            if want is None:
+                bad = {"schedule_not_followed": m}              # the code took another number of steps than the model
+            elif want != got:
+                bad = {"model": want, "code": m}
+        elif m["cbs"] != 1 or m["state"] != 4 or m["nbpa"] != 0:
+            bad = {"code": m}
+        if bad:
+            ctx.divergences += 1
+            ctx.sample({"divergence": bad}, limit=6)
+    for sc in scen:
+        e, (total, exhaustive) = explored.get(sc["id"], {}), npaths.get(sc["id"], (None, False))
+        ctx.extra.setdefault("concurrent", []).append(
+            {"id": sc["id"], "n": sc["n"], "me": sc["me"], "root": sc["root"], "threads": sc["prog"], "model_paths": total,
+             "replayed": len(schedules.get(sc["id"], ())), "code_interleavings": e.get("explored"),
+             "code_exhaustive": e.get("exhaustive")})
+        if e.get("exhaustive") and exhaustive and e.get("explored") != total:
+            ctx.divergences += 1
+            ctx.sample({"divergence": {"scenario": sc["id"], "model_paths": total, "code_interleavings": e.get("explored")}}, limit=6)
+    cdistinct, _ = tracecheck.dedupe(cexs)
+    how = {}                                                    # distinct execution -> (scenario, schedule) that produced it
+    for ex, m in zip(cexs, cruns):
+        how.setdefault(json.dumps(tracecheck.dedupe([ex])[0][0], sort_keys=True), m)
+    ctx.extra["concurrent_executions"] = len(cexs)
+    ctx.extra["concurrent_distinct"] = len(cdistinct)
+    if cexs:
+        ctx.sample({"concurrent": cruns[len(cruns) // 2] if cruns else None, "events": cexs[len(cexs) // 2]})
+
     # ---- verdict -----------------------------------------------------------------------------------------------------
-    ctx.evaluations = len(bexs) + len(sexs)
+    ctx.evaluations = len(bexs) + len(sexs) + len(cexs)
+    fails = ctx.validate("Termdet", "UserTriggerTrace", "UserTriggerTrace.cfg", cdistinct, batch=2000, env=JVM_ENV)
+    for f in fails:
+        ctx.violation("user-trigger termination, threads of one process calling the module concurrently: a process is notified "
+                      "twice / not at all: %s" % json.dumps(f.describe())[:1200],
+                      {"kind": "concurrent", "events": f.execution,
+                       "scenario": byid.get(how.get(json.dumps(f.execution, sort_keys=True), {}).get("id")),
+                       "sched": how.get(json.dumps(f.execution, sort_keys=True), {}).get("sched")})
     fails = ctx.validate("Termdet", "UserTriggerTrace", "UserTriggerTrace.cfg", bexs, batch=4000, env=JVM_ENV)
     for f in fails:
         i = f.index
@@ -167,7 +342,20 @@ def run(ctx):
         ev["edges"][-1][1] = ev["edges"][0][1]          # last notification goes to an already notified process
         if not rejected_once(ctx, "Termdet", "UserTriggerTrace", "UserTriggerTrace.cfg", [ev], JVM_ENV):
             raise tlc.TLCError("binding self-test: a run with a duplicated destination was accepted by UserTriggerTrace")
+    if cdistinct and not ctx.violations:
+        ex = json.loads(json.dumps(next(e for e in cdistinct if sum(1 for ev in e if ev["e"] == "send") >= 2)))
+        snd = [ev for ev in ex if ev["e"] == "send"]
+        k = max(i for i, ev in enumerate(ex) if ev["e"] == "send")
+        ex.insert(k + 1, dict(snd[0]))                         # the process sends one of its notifications a second time ...
+        k = next(i for i, ev in enumerate(ex) if ev["e"] == "deliver" and (ev["src"], ev["dst"]) == (snd[0]["src"], snd[0]["dst"]))
+        ex.insert(k + 1, dict(ex[k]))                          # ... and the child receives it
+        if not rejected_once(ctx, "Termdet", "UserTriggerTrace", "UserTriggerTrace.cfg", ex, JVM_ENV):
+            raise tlc.TLCError("binding self-test: a concurrent execution with a duplicated send was accepted by UserTriggerTrace")
     ctx.assume("a single process triggers termination (contract of the user_trigger detector)")
+    ctx.assume("in-process concurrency: runtime actions are accounted by threads that saw taskpool_state() != TERMINATED; yield "
+               "points = the parsec_atomic_* operations of the module and every send_am; the zero-crossing test and "
+               "`state = TERMINATED` that follow the fetch-add without a yield point are atomic with it (an action accounted "
+               "after the counter reached zero is outside the counting contract of parsec_taskpool_update_runtime_nbtask)")
     ctx.assume("asserts compiled out (RelWithDebInfo); a duplicate notification is observed by the harness, not by a crash")
 
 
@@ -177,6 +365,9 @@ def replay(ctx, obj):
         exs = sweep(ctx, exe, [tuple(int(x) for x in obj["line"].split())], "replay")
     elif obj.get("kind") == "behaviour" and obj.get("line"):
         exs, _ = behaviours(ctx, exe, [obj["line"]], "replay")
+    elif obj.get("kind") == "concurrent" and obj.get("scenario") and obj.get("sched") is not None:
+        sc = obj["scenario"]                                    # the same schedule, again, on the real module
+        exs, _ = conc_run(ctx, exe, conc_script([sc], {sc["id"]: [obj["sched"]]}, 0), "replay")
     else:
         exs = [obj["events"]]
     for f in ctx.validate("Termdet", "UserTriggerTrace", "UserTriggerTrace.cfg", exs, env=JVM_ENV):
